@@ -89,6 +89,15 @@ CLAIMED = {
         "A mutation through C-level dict/list APIs that bypass subclass methods is seen by the snapshot only.",
         "DESIGN.md section 5, C09",
     ),
+    'C10': (
+        "Hypothesis stateful testing (RuleBasedStateMachine over build / convert / temporary-literal / drop / gc / handlers / memo-vs-fresh / 4-thread batch / mass subscription); reference-interpreter oracle per step; second model-based machine for KeyCache",
+        "Histories of up to 50 (thorough 120) operations on short-lived type objects; every conversion outcome must equal the reference verdict for "
+        "(spec, value), the memoised converter must behave like one built past the cache, interleaved calls with different call-level handlers must "
+        "each follow their own handlers, and KeyCache (unbounded and LRU maxsize 1-4) must always return f(args) and respect maxsize. "
+        "Histories are plain data and replay without Hypothesis.",
+        "The harness does not own the thread schedule (stress only) nor the allocator (id-reuse events are measured and reported, not forced).",
+        "DESIGN.md section 5, C10",
+    ),
     'C11': (
         "Hypothesis generation of overlapping unions; metamorphic oracle against pane's own member conversions (left-most accepting member), spelling-independence, and member-consistent serialisation; reference index cross-check",
         "Unions of 2-5 overlapping members in five spellings: the union accepts iff a member accepts, returns exactly the left-most accepting "
@@ -153,6 +162,15 @@ CLAIMED = {
         "global handlers sit after the scalar built-ins and the protocol, before structural built-ins.",
         "A fresh marker class per case keeps the converter cache out of the picture; one global dispatcher is registered per process.",
         "DESIGN.md section 5, C18",
+    ),
+    'C19': (
+        "Hypothesis type-directed generation x sink/source kinds x formatting options; file round-trip oracle with the in-memory round trip as precondition, stream-ownership observation by wrapping pane.io.open",
+        "Typed values whose serialised form the format can represent are written through every sink (Path, str path, caller stream, caller-opened file, "
+        "dataclass method returning a string / writing a stream) under generated options and read back through every source (stream, Path, str path, "
+        "dataclass classmethods); the value read must be the same, functions and methods must agree, from_yaml_all must return one value per document, "
+        "caller streams must stay open, files pane opens must be closed and opened as UTF-8.",
+        "Trusts json / PyYAML; text PyYAML itself cannot round-trip is excluded and counted. NaN excluded.",
+        "DESIGN.md section 5, C19",
     ),
     'C20': (
         "exhaustive enumeration of a finite name set + Hypothesis search, against an independent canonical renderer",
